@@ -88,7 +88,7 @@ namespace jsonschema {
             
             for (const auto& prop : sch.object_range())
             {
-                jsoncons::string_view sub_keys[] = {keyword};
+                jsoncons::string_view sub_keys[] = {keyword, prop.key()};
                 pattern_properties.emplace_back(
                     std::make_pair(
                         std::regex(prop.key(), std::regex::ECMAScript),
@@ -643,7 +643,7 @@ namespace jsonschema {
                     case json_type::boolean:
                     case json_type::object:
                     {
-                        jsoncons::string_view sub_keys[] = {"dependencies"};
+                        jsoncons::string_view sub_keys[] = {"dependencies", dep.key()};
                         dependent_schemas.emplace(dep.key(),
                             factory_->make_cross_draft_schema_validator(context, dep.value(), sub_keys, anchor_dict));
                         break;
@@ -716,7 +716,7 @@ namespace jsonschema {
                     case json_type::boolean:
                     case json_type::object:
                     {
-                        jsoncons::string_view sub_keys[] = {"dependentSchemas"};
+                        jsoncons::string_view sub_keys[] = {"dependentSchemas", dep.key()};
                         dependent_schemas.emplace(dep.key(),
                             factory_->make_cross_draft_schema_validator(context, dep.value(), sub_keys, anchor_dict));
                         break;
@@ -848,7 +848,7 @@ namespace jsonschema {
                 if (it != parent.object_range().end()) 
                 {
                     uri items_location{context.make_schema_location("items")};
-                    jsoncons::string_view sub_keys[] = { "additionalItems" };
+                    jsoncons::string_view sub_keys[] = { "items" };
 
                     items_val = jsoncons::make_unique<items_keyword<Json>>("items", parent, items_location,
                         context.get_custom_message("items"),
